@@ -106,8 +106,13 @@ class T(object):
         self.label = 'term(%s)' % name
 
     def apply(self, world):
-        world.terminated = (CLOCK.now, self.label, world.slot() or ('<restarting>' if world.arbiter._restarting else None))
-        self.ev.apply(world)
+        slot = world.slot() or ('<restarting>' if world.arbiter._restarting else None)
+        r = self.ev.apply(world)
+        if isinstance(self.ev, Req) and r is not None and not r.ok():
+            # a quit REQUEST that is refused (conflict) tells its client so: the property is about accepted quit requests
+            world.refused_quits = getattr(world, 'refused_quits', 0) + 1
+            return
+        world.terminated = (CLOCK.now, self.label, slot)
 
 
 def run(scn, ch):
@@ -205,7 +210,7 @@ def run(scn, ch):
         slot_at = term[2] if term else None
         site = 'arbiter.stop'
         if state['deadline_missed'] and slot_at:
-            site = ('sighandler.quit/dropped-while-arbiter-restarts' if slot_at == '<restarting>'
+            site = ('sighandler.quit/dropped-while-arbiter-restarts' if slot_at in ('<restarting>', 'arbiter_restart')
                     else 'sighandler.quit/dropped-while-exclusive-operation')
         if state['abort']:
             res.check('C08.exits_0', False, 'aborted: %s (terminated by %s)' % (state['abort'], tlab), where=world.blocked_site())
